@@ -432,6 +432,16 @@ def special_cases():
                 "md": {"node_props": [["t", "int8", True], ["x", "int32", False]]}, "origin": "special-md"})
     out.append({"g": {**base, "node_props": [t], "edge_props": []},
                 "md": {"node_props": [["ghost", "int8", False]]}, "origin": "special-md-ghost"})
+    # node and edge properties under ONE name (different groups): var-length on both sides with different element dtypes,
+    # var-length vs fixed, same dtype
+    nv = {"values": {"obj": [det_array("int8", [2], 1), det_array("int8", [0], 2), det_array("int8", [3], 3)]}, "missing": None}
+    ev = {"values": {"obj": [det_array("float64", [1, 2], 4), det_array("float64", [2, 2], 5)]}, "missing": None}
+    ev2 = {"values": {"obj": [det_array("int8", [1], 6), det_array("int8", [2], 7)]},
+           "missing": {"dtype": "bool", "shape": [2], "flat": [True, False]}}
+    ed = {"values": det_array("uint16", [2, 2], 8), "missing": None}
+    for npr, epr in ((nv, ev), (nv, ev2), (nv, ed), (x[1], ev)):
+        out.append({"g": {**base, "node_props": [["same", npr], x if npr is not x[1] else t], "edge_props": [["same", epr]]},
+                    "origin": "special-shared-name"})
     # `None` instead of a property dict (allowed by the signature): no props group is written, nothing comes back
     out.append({"g": {**base, "node_props": None, "edge_props": None}, "origin": "special-none-props"})
     out.append({"g": {**base, "node_props": [x], "edge_props": None}, "origin": "special-none-props"})
